@@ -26,6 +26,11 @@ from rustlex import Unsupported  # noqa: E402
 from props import PROPS, STAR_OWNERS, TRUSTED  # noqa: E402
 
 BUILD = os.environ.get("VERIF_BUILD", os.path.join(VERIF, "build"))
+BASELINE_FILE = os.path.join(VERIF, "units", "baseline_hashes.json")
+try:
+    BASELINE = json.load(open(BASELINE_FILE))
+except Exception:
+    BASELINE = {}
 EVID = os.environ.get("VERIF_EVIDENCE", os.path.join(VERIF, "evidence"))
 VERUS = os.environ.get("VERUS", "verus")
 
@@ -171,6 +176,7 @@ def check_property(pid, tier, seed):
     solver_ms = 0
     fn_under_contract = []
     assumed_items = []
+    seen_hashes = {}
     for r in runs:
         unit_dir = os.path.join(VERIF, "units", r["unit"])
         active = set(r["groups"])
@@ -188,6 +194,11 @@ def check_property(pid, tier, seed):
             continue
         open(out, "w").write(em.text())
         json.dump(dict(extraction=extraction, linemap=em.meta), open(out + ".map.json", "w"))
+        # functions whose extracted text differs from the committed baseline of the unchanged tree (units/baseline_hashes.json)
+        for e in extraction:
+            if not e.get("inactive"):
+                seen_hashes[e["key"]] = e["sha256"]
+        changed_items = set(k for k, h in seen_hashes.items() if BASELINE.get(k) not in (None, h))
         cmd, rc, vj, diags, stderr, wall = run_verus(out, rlimit=r.get("rlimit", 60))
         cmds.append(cmd)
         failures, tool = classify(diags, em.meta)
@@ -247,6 +258,14 @@ def check_property(pid, tier, seed):
                 f["attrib"] = "own"
             else:
                 f["attrib"] = "other"
+            site_item = f.get("at_item") or f.get("item")
+            site_part = f.get("at_part") or f.get("part") or ""
+            if site_part == "body" and site_item in changed_items and not f.get("label"):
+                # an implicit obligation (machine arithmetic, an index, the precondition of a call) inside a function whose text
+                # differs from the unchanged tree: it is a NEW obligation of the changed code, not one that held before and now
+                # fails; without the invariants that code would need, its failure says nothing -> undecided, the stand-in decides
+                undecided.append("%s: new implicit obligation in the changed function %s is not discharged (%s): %s" % (tag, site_item, kind, name))
+                continue
             if f["attrib"] == "shared" and spec.get("owns_shared") == "safety":
                 # owns only panic-freedom: preconditions (of panic primitives, pushes, callees) and machine arithmetic
                 if not (kind.startswith("precondition not satisfied") or "arithmetic" in kind or "division" in kind or "bit shift" in kind):
@@ -296,6 +315,11 @@ def check_property(pid, tier, seed):
             vac.append(v)
             if v["unreached"]:
                 undecided.append("vacuity: %d probe(s) verified instead of failing (contradictory requires / invariant?): %s" % (len(v["unreached"]), v["unreached"][:5]))
+    if os.environ.get("VERIF_WRITE_BASELINE") == "1":
+        cur = dict(BASELINE)
+        cur.update(seen_hashes)
+        json.dump(cur, open(BASELINE_FILE, "w"), indent=0, sort_keys=True)
+        BASELINE.update(seen_hashes)
     return dict(vacuity=vac, failures=all_fail, undecided=undecided, runs=evidence_runs, obligations=n_obl, discharged=max(n_dis, 0), obl_names=obl_names,
                 cmds=cmds, solver_ms=solver_ms, functions=fn_under_contract, assumed=sorted(set(assumed_items)), wall=time.time() - t0)
 
